@@ -1,0 +1,5 @@
+//go:build !verif
+
+package fzf
+
+func verifPoint(point string, a int, b int) {}
